@@ -196,12 +196,21 @@ func main() {
 		for i := 0; i < npco; i++ {
 			pco := nasConvert.NewProtocolConfigurationOptions()
 			n := r.Intn(9)
+			if i < 4 { // fixed shapes first: eight empty units, a first unit of length 0, a last unit of length 255, a single unit of length 255
+				n = []int{8, 3, 3, 1}[i]
+			}
 			var ids []int
 			var contents [][]int
 			for j := 0; j < n; j++ {
 				u := nasConvert.NewProtocolOrContainerUnit()
 				u.ProtocolOrContainerID = uint16([]int{0, 1, 0x000d, 0x0003, 0x8021, 0xffff, r.Intn(65536)}[r.Intn(7)])
 				l := []int{0, 0, 1, 4, 16, 255, r.Intn(256)}[r.Intn(7)]
+				switch {
+				case i == 0, i == 1 && j == 0:
+					l = 0
+				case i == 2 && j == n-1, i == 3:
+					l = 255
+				}
 				u.Contents = ev.Bytes(r, l)
 				u.LengthOfContents = uint8(l)
 				pco.ProtocolOrContainerList = append(pco.ProtocolOrContainerList, u)
